@@ -583,7 +583,8 @@ class Gen:
                 # multiples of pi among the terms of a nested sum (sympy shifts the argument of a periodic function by them)
                 b = self.expr(names, max(1, d - 2))
                 pim = rng.choice([("pi",), ("bin", "*", ("num", "2"), ("pi",)), ("bin", "/", ("pi",), ("num", "2")), ("neg", ("pi",))])
-                a = rng.choice([("bin", "+", ("bin", "+", a, pim), b), ("bin", "-", ("bin", "-", pim, a), b),
+                a = rng.choice([("bin", "*", ("bin", "*", ("pi",), ("pi",)), a), ("bin", "*", ("bin", "*", a, ("pi",)), ("pi",)),
+                                ("bin", "+", ("bin", "+", a, pim), b), ("bin", "-", ("bin", "-", pim, a), b),
                                 ("bin", "+", ("bin", "+", pim, a), b), ("neg", ("bin", "+", ("bin", "-", a, pim), b)),
                                 ("bin", "-", ("bin", "-", pim, ("num", "2.0")), ("num", "0"))])
             return ("fn", f, a)
